@@ -45,7 +45,51 @@ POSITIONAL = {
 }
 
 
+import weakref
+
+_HANDED_OUT = weakref.WeakKeyDictionary()      # client object -> [(container it returned, repr at that time)], the last few
+
+
+def _mutable_args(r):
+    out = []
+    for name in ("values", "keys", "value", "default", "cas_default"):
+        v = r.get(name)
+        if isinstance(v, (dict, list, bytearray, set)):
+            out.append((name, v))
+    return out
+
+
 def invoke(c, r):
+    """the call, and two things every call owes its caller whatever else it does: the argument objects are left as they were
+    (the dict handed to set_many, the list of keys, a bytearray value), and a container it returns is the caller's own - not
+    one handed out before, and not changed behind the caller's back later"""
+    import copy
+    from vlib.runner import Violation
+    args = _mutable_args(r)
+    before = [(name, v, copy.deepcopy(v)) for name, v in args]
+    try:
+        earlier = _HANDED_OUT.setdefault(c, [])
+    except TypeError:
+        earlier = None
+    try:
+        res = _invoke(c, r)
+    finally:
+        for name, v, snap in before:
+            if v != snap or type(v) is not type(snap):
+                raise Violation(["argument-mutated", r["op"], name], "%s(...) changed the caller's %s object: %r before the call, %r after" % (r["op"], name, snap, v))
+    if earlier is not None:
+        for obj, snap in earlier:
+            if repr(obj) != snap:
+                raise Violation(["result-changed-later", r["op"]], "a container returned by an earlier call on this object (%s then) reads %r after %s(...)" % (snap, obj, r["op"]))
+        if isinstance(res, (dict, list)) and not any(res is v for _n, v in args):
+            if any(res is obj for obj, _s in earlier):
+                raise Violation(["result-handed-out-twice", r["op"]], "%s(...) returned the very container object an earlier call on this object had returned: %r" % (r["op"], res))
+            earlier.append((res, repr(res)))
+            del earlier[:-6]
+    return res
+
+
+def _invoke(c, r):
     op = r["op"]
     if "keys_as" in r and "keys" in r:
         r = dict(r, keys=_keys_as(r["keys"], r["keys_as"]))
